@@ -13,6 +13,10 @@ import (
 type HistSpec struct {
 	Ops  []*Op `json:"ops"`
 	Grow int   `json:"grow,omitempty"`
+	// Flagged: judge the SafeFormat route under directives with width,
+	// precision and flags also for scripts with SafeInt/SafeUint/SafeFloat
+	// (known finding KF2; set by its witness only)
+	Flagged bool `json:"flagged,omitempty"`
 }
 
 func init() {
@@ -212,8 +216,13 @@ func checkC09Run(h *HistSpec) Result {
 	// payloads land unchanged under these directives too
 	if exact {
 		ds := []string{"%+v", "%#v"}
-		if flagInsensitive(h.Ops) {
-			// (SafeInt, SafeUint and SafeFloat use the active width and flags)
+		if flagInsensitive(h.Ops) || h.Flagged {
+			ds = append(ds, "%8v", "%-6.1v", "%08.3v", "% x", "%q")
+		} else if knownOpen("KF2") {
+			// known finding KF2: SafeInt, SafeUint and SafeFloat use the width,
+			// precision and flags of the directive that reached the method
+			col.Excluded("KF2: SafeInt/SafeUint/SafeFloat under a flagged directive")
+		} else {
 			ds = append(ds, "%8v", "%-6.1v", "%08.3v", "% x", "%q")
 		}
 		for _, d := range ds {
